@@ -19,7 +19,12 @@
 (*           op messages from the replicate channel; create / drop collection *)
 (*           and partition events from the catalog watcher): two consecutive  *)
 (*           source operations of different streams may arrive in the reverse *)
-(*           order of their stamps.                                           *)
+(*           order of their stamps.  "overtake" (WithOvertake) = the later    *)
+(*           one may even depend on the earlier one: an operation on an       *)
+(*           object arrives before the create (re-create) of that object was  *)
+(*           handled - completely before it (it has to wait = not ready), or  *)
+(*           while its own probe is in flight (the create lands, the probe    *)
+(*           finds the object, the operation is applied).                     *)
 (*                                                                           *)
 (* Design  : tabC / tabD (create / drop time tables), per-kind handlers.     *)
 (* Deviation switches (FALSE = as built):                                    *)
@@ -27,10 +32,16 @@
 (*   AlterIdxRecheck alterIndex re-checks readiness after a failed request   *)
 (*   DropGuarded     a drop is not executed against an incarnation newer     *)
 (*                   than its stamp                                          *)
-(* Contract: ghost kd (recorded drop times: snapshot + handled drops), down  *)
+(*   ProbeAfterDrop  TRUE = as built: both times recorded, create < drop < t *)
+(*                   (the known incarnation is gone, the operation is newer   *)
+(*                   than its drop) is "unknown" = probe; FALSE (negative     *)
+(*                   control): the recorded create time alone decides         *)
+(* Contract: ghost kd (recorded drop times: snapshot + handled drops), ks    *)
+(*   (positive knowledge: the drop time that was recorded when the writer    *)
+(*   last saw the object alive - successful probe or its own create), down   *)
 (*   (downstream incarnations, value = source time of the create that made   *)
 (*   them); every Deliver step computes the set of violated clauses:         *)
-(*   NoStaleApply, SkipNotFail, NewerApplied, NoSilentSkip.                  *)
+(*   NoStaleApply, SkipNotFail, NewerApplied, NoSilentSkip, NoBlindApply.    *)
 EXTENDS Integers, Sequences, FiniteSets, TLC, Json
 
 CONSTANTS MaxT,            \* source clock bound
@@ -41,9 +52,11 @@ CONSTANTS MaxT,            \* source clock bound
           Kinds,           \* "use" kinds that may be delivered
           WithFail, WithInflight, WithRestart,
           WithSwap,        \* two consecutive source operations of DIFFERENT input streams are handled in the reverse order
+          WithOvertake,    \* ... even when the later one depends on the earlier one (operation before / while the create of its object lands)
           AlterDbChecked, AlterIdxRecheck, DropGuarded,
           CreateFromDrop,  \* TRUE = as built: a successful probe records "created right after the known drop";
                            \* FALSE (negative control): it records the stamp of the probing operation
+          ProbeAfterDrop,  \* TRUE = as built: create < drop < t (both recorded) is "unknown"; FALSE (negative control): "created"
           TabT             \* part (a): time domain of the decision table
 
 Unk == -1
@@ -75,7 +88,7 @@ StmtClass(t, c, d, cok, dok) ==
 StateAllowed(cls, exists, st) ==
     CASE cls = "skip"  -> st = "dropped"
       [] cls = "apply" -> st = "created"
-      [] cls = "probe" -> IF exists THEN st = "created" ELSE st \in {"unknown", "created"}
+      [] cls = "probe" -> IF exists THEN st = "created" ELSE st = "unknown"     \* nothing says that the object exists: not "created"
       [] OTHER         -> TRUE
 
 DesignDecision(t, c, d, cok, dok, exists) ==
@@ -130,24 +143,27 @@ VARIABLES clock, sb, sd, past,     \* source: time, born time per object (0 = de
           tabC, tabD,              \* design: the writer's create / drop tables (Unk = no entry)
           down,                    \* downstream: born time of the incarnation present (0 = absent)
           kd,                      \* ghost: recorded drop times as the contract understands them
+          ks,                      \* ghost: positive knowledge - kd[x] (0 if none) at the moment the writer last saw x alive
+                                   \*        (successful probe, or its own create of x took effect); Unk = never in this writer life
           last,                    \* observation of the last step
           hist
-vars == <<clock, sb, sd, past, cursor, tabC, tabD, down, kd, last, hist>>
-view == <<clock, sb, sd, past, cursor, tabC, tabD, down, kd, last, Len(hist)>>
+vars == <<clock, sb, sd, past, cursor, tabC, tabD, down, kd, ks, last, hist>>
+view == <<clock, sb, sd, past, cursor, tabC, tabD, down, kd, ks, last, Len(hist)>>
 
 NoObs == [op |-> "none", viol |-> {}]
 
 Init == /\ clock = 0 /\ sb = [o \in Obj |-> 0] /\ sd = [o \in Obj |-> FALSE] /\ past = {}
         /\ cursor = 0
         /\ tabC = [o \in Obj |-> Unk] /\ tabD = [o \in Obj |-> Unk]
-        /\ down = [o \in Obj |-> 0] /\ kd = [o \in Obj |-> Unk]
+        /\ down = [o \in Obj |-> 0] /\ kd = [o \in Obj |-> Unk] /\ ks = [o \in Obj |-> Unk]
         /\ last = NoObs /\ hist = <<>>
 
 ExistsLevel(x, dn) == x = DefaultObj \/ (x \in Obj /\ dn[x] # 0)
 SrcAlive(x) == x = DefaultObj \/ (x \in Obj /\ sb[x] # 0)
 
 (* ---------------- design: the writer ----------------------------------- *)
-CodeState(t, c, d) == CodeState4(t, c, d, c # Unk, d # Unk)
+CodeState(t, c, d) == IF ~ProbeAfterDrop /\ c # Unk /\ d # Unk /\ c < d /\ d < t THEN "created"
+                      ELSE CodeState4(t, c, d, c # Unk, d # Unk)
 
 \* Wait{Database,Collection,Partition}Ready: decision, else probe (describe) and remember "created after the known drop"
 WaitOne(x, t, tc, td, dn) ==
@@ -200,6 +216,16 @@ Handle(k, o, t, fail, tc, td, dn) ==
 (* ---------------- contract ---------------------------------------------- *)
 MustSkip(x, t, k_d) == x # DefaultObj /\ k_d[x] # Unk /\ t <= k_d[x]
 
+\* "the current incarnation exists according to the recorded create and drop times": the writer has seen x alive (a probe of x
+\* succeeded, or its own create of x took effect) and no drop newer than the one known at that moment has been recorded since.
+\* Deliberately weak: what a writer may record beyond that (nothing, as built) is not prescribed.
+Known(x, k_d, k_s) == x \in Obj /\ k_s[x] # Unk /\ k_d[x] <= k_s[x]
+PosT(b) == IF b < 0 THEN 0 ELSE b
+\* S = the objects seen alive by the operation (probed with success / created); k_d = the recorded drop times at that moment
+KsSee(S, k_d, k_s) == [x \in Obj |-> IF x \in S THEN PosT(k_d[x]) ELSE k_s[x]]
+\* design side: a successful probe is exactly a change of the create table
+SeenBy(k, o, executed, tc0, tc1) == {x \in Obj : tc1[x] # tc0[x]} \cup (IF IsCreate(k) /\ executed THEN {o} ELSE {})
+
 \* classification of the chain, top down: "skip" / "absent" / "live" of the first level that is not live
 RECURSIVE ChainCls(_, _, _, _, _, _)
 ChainCls(o, i, n, t, k_d, dn) ==
@@ -214,7 +240,8 @@ ChainCls(o, i, n, t, k_d, dn) ==
 \*   kd1       : recorded drop times when the operation returns (differs when a drop was handled meanwhile)
 \*   issued    : the operation's own request was sent;  executed : it took effect;  stale : it hit a newer incarnation
 \*   injected  : the downstream was told to reject the request
-Violations(k, o, t, kd0, kd1, dn0, ok, issued, executed, stale, disturbed) ==
+\*   ks0       : positive knowledge before the operation (dn0 = the downstream when the operation decided / sent its request)
+Violations(k, o, t, kd0, kd1, ks0, dn0, ok, issued, executed, stale, disturbed) ==
     LET n   == CChainLen(k, o)
         cls == ChainCls(o, 1, n, t, kd0, dn0)
         newer == IsDrop(k) /\ dn0[o] > t                     \* the drop's target is a newer incarnation
@@ -229,6 +256,12 @@ Violations(k, o, t, kd0, kd1, dn0, ok, issued, executed, stale, disturbed) ==
         \cup (IF cls = "live" /\ issued /\ ~executed /\ postSkip /\ ~ok THEN {"SkipNotFail"} ELSE {})
         \cup (IF cls = "live" /\ issued /\ ~executed /\ ~postSkip /\ ok THEN {"NoSilentSkip"} ELSE {})
         \cup (IF cls = "live" /\ issued /\ ~executed /\ ~disturbed THEN {"NewerApplied"} ELSE {})
+        \* executed only if the current incarnation existed at t according to the records: the request was sent although a level of the
+        \* chain is absent downstream, is not known to be dropped at or after t, and the writer has no knowledge of an incarnation
+        \* newer than the recorded drop (it could only have found out by a probe, and a probe of an absent object does not succeed)
+        \cup (IF issued /\ \E i \in 1..n : LET x == Prefix(o, i) IN
+                              x # DefaultObj /\ ~ExistsLevel(x, dn0) /\ ~MustSkip(x, t, kd0) /\ ~Known(x, kd0, ks0)
+              THEN {"NoBlindApply"} ELSE {})
 
 \* a drop that was sent downstream and ended well is recorded
 KdAfter(k, o, t, ok, issued, k_d) == IF IsDrop(k) /\ ok /\ issued THEN [k_d EXCEPT ![o] = t] ELSE k_d
@@ -249,7 +282,7 @@ Src(cls, o) ==
                [] OTHER -> sb
     /\ sd' = IF cls = "drop" THEN [x \in Obj |-> sd[x] \/ (IsUnder(x, o) /\ sb[x] # 0)] ELSE sd
     /\ past' = past \cup {[cls |-> cls, o |-> o, t |-> clock + 1]}
-    /\ UNCHANGED <<cursor, tabC, tabD, down, kd, last, hist>>
+    /\ UNCHANGED <<cursor, tabC, tabD, down, kd, ks, last, hist>>
 
 Pending == {p \in past : p.t > cursor}
 NextOp(S) == CHOOSE p \in S : \A q \in S : p.t <= q.t
@@ -270,8 +303,9 @@ Deliver ==
           LET r == Handle(k, p.o, p.t, fail, tabC, tabD, down)
               kd1 == KdAfter(k, p.o, p.t, r.ok, r.issued, kd)
           IN /\ tabC' = r.tc /\ tabD' = r.td /\ down' = r.dn /\ kd' = kd1
+             /\ ks' = KsSee(SeenBy(k, p.o, r.executed, tabC, r.tc), kd, ks)
              /\ cursor' = p.t
-             /\ last' = [op |-> "deliver", viol |-> Violations(k, p.o, p.t, kd, kd1, down, r.ok, r.issued, r.executed, r.stale, fail)]
+             /\ last' = [op |-> "deliver", viol |-> Violations(k, p.o, p.t, kd, kd1, ks, down, r.ok, r.issued, r.executed, r.stale, fail)]
              /\ hist' = Append(hist, StepRec(k, p.o, p.t, fail, "", 0))
     /\ UNCHANGED <<clock, sb, sd, past>>
 
@@ -295,18 +329,23 @@ DeliverInflight ==
                       kdq == KdAfter(kq, q.o, q.t, rq.ok, rq.issued, kd)
                       r  == CallPost(k, p.o, p.t, FALSE, rq.tc, rq.td, rq.dn)
                       kd1 == KdAfter(k, p.o, p.t, r.ok, r.issued, kdq)
-                  IN /\ tabC' = r.tc /\ tabD' = r.td /\ down' = r.dn /\ kd' = kd1
+                      \* seen alive: by p's checks before the request, by the drop's checks, by p's re-check after the drop
+                      ks1 == KsSee(SeenBy(k, p.o, FALSE, tabC, pre.tc), kd, ks)
+                      ks2 == KsSee(SeenBy(kq, q.o, FALSE, pre.tc, rq.tc), kd, ks1)
+                      ks3 == KsSee(SeenBy(k, p.o, r.executed, rq.tc, r.tc), kdq, ks2)
+                  IN /\ tabC' = r.tc /\ tabD' = r.td /\ down' = r.dn /\ kd' = kd1 /\ ks' = ks3
                      /\ cursor' = q.t
                      /\ last' = [op |-> "deliver",
-                                 viol |-> Violations(k, p.o, p.t, kd, kd1, down, r.ok, r.issued, r.executed, r.stale, TRUE)
-                                          \cup Violations(kq, q.o, q.t, kd, kdq, down, rq.ok, rq.issued, rq.executed, rq.stale, FALSE)]
+                                 viol |-> Violations(k, p.o, p.t, kd, kd1, ks, down, r.ok, r.issued, r.executed, r.stale, TRUE)
+                                          \cup Violations(kq, q.o, q.t, kd, kdq, ks1, down, rq.ok, rq.issued, rq.executed, rq.stale, FALSE)]
                      /\ hist' = Append(hist, StepRec(k, p.o, p.t, FALSE, kq, q.t))
     /\ UNCHANGED <<clock, sb, sd, past>>
 
 \* the input stream an operation arrives on: collection / partition creates and drops are API events of the catalog
 \* watcher, everything else is an op message of the replicate channel
 StreamOf(p) == IF p.cls \in {"create", "drop"} /\ Len(p.o) >= 2 THEN "event" ELSE "msg"
-\* q (stamped later) is handled before p; neither is a drop and q does not depend on what p creates
+\* q (stamped later) is handled before p; neither is a drop and q does not depend on what p creates - unless WithOvertake:
+\* then q may be an operation on / under the object that p creates (it arrives before the create and has to wait)
 DeliverSwapped ==
     /\ WithSwap
     /\ Len(hist) + 1 < MaxOps
@@ -315,18 +354,54 @@ DeliverSwapped ==
            q == NextOp(Pending \ {p})
        IN /\ StreamOf(p) # StreamOf(q)
           /\ p.cls # "drop" /\ q.cls # "drop"
-          /\ ~(p.cls = "create" /\ IsUnder(q.o, p.o))
+          /\ WithOvertake \/ ~(p.cls = "create" /\ IsUnder(q.o, p.o))
           /\ \E kq \in KindOf(q), kp \in KindOf(p) :
                LET rq  == Handle(kq, q.o, q.t, FALSE, tabC, tabD, down)
                    kdq == KdAfter(kq, q.o, q.t, rq.ok, rq.issued, kd)
                    rp  == Handle(kp, p.o, p.t, FALSE, rq.tc, rq.td, rq.dn)
                    kdp == KdAfter(kp, p.o, p.t, rp.ok, rp.issued, kdq)
-               IN /\ tabC' = rp.tc /\ tabD' = rp.td /\ down' = rp.dn /\ kd' = kdp
+                   ksq == KsSee(SeenBy(kq, q.o, rq.executed, tabC, rq.tc), kd, ks)
+                   ksp == KsSee(SeenBy(kp, p.o, rp.executed, rq.tc, rp.tc), kdq, ksq)
+               IN /\ tabC' = rp.tc /\ tabD' = rp.td /\ down' = rp.dn /\ kd' = kdp /\ ks' = ksp
                   /\ cursor' = q.t
                   /\ last' = [op |-> "deliver",
-                              viol |-> Violations(kq, q.o, q.t, kd, kdq, down, rq.ok, rq.issued, rq.executed, rq.stale, FALSE)
-                                       \cup Violations(kp, p.o, p.t, kdq, kdp, rq.dn, rp.ok, rp.issued, rp.executed, rp.stale, FALSE)]
+                              viol |-> Violations(kq, q.o, q.t, kd, kdq, ks, down, rq.ok, rq.issued, rq.executed, rq.stale, FALSE)
+                                       \cup Violations(kp, p.o, p.t, kdq, kdp, ksq, rq.dn, rp.ok, rp.issued, rp.executed, rp.stale, FALSE)]
                   /\ hist' = hist \o <<StepRec(kq, q.o, q.t, FALSE, "", 0), StepRec(kp, p.o, p.t, FALSE, "", 0)>>
+    /\ UNCHANGED <<clock, sb, sd, past>>
+
+\* q (stamped later, other input stream) is an operation on / under the object that p creates; it arrives first, its readiness
+\* check reaches the level of that object, the records do not say that the object exists (probe), and while the probe is in
+\* flight p is handled completely by another goroutine: the probe finds the object, q goes on and is applied.
+\* hist: one step, q with p's kind as "inflight".
+DeliverOvertake ==
+    /\ WithOvertake
+    /\ Len(hist) < MaxOps
+    /\ Cardinality(Pending) >= 2
+    /\ LET p == NextOp(Pending)
+           q == NextOp(Pending \ {p})
+           m == Len(p.o)
+       IN /\ StreamOf(p) # StreamOf(q)
+          /\ p.cls = "create" /\ q.cls # "drop" /\ IsUnder(q.o, p.o)
+          /\ \E kq \in KindOf(q) :
+               LET kp  == CreateKind(m)
+                   pre == WC(q.o, 1, m - 1, q.t, tabC, tabD, down) IN
+               /\ m <= DChainLen(kq, q.o)
+               /\ pre.res = "go"
+               /\ CodeState(q.t, pre.tc[p.o], tabD[p.o]) = "unknown"          \* a probe of p.o is sent
+               /\ LET rp  == Handle(kp, p.o, p.t, FALSE, pre.tc, tabD, down)
+                      kdp == KdAfter(kp, p.o, p.t, rp.ok, rp.issued, kd)
+                      rq  == Handle(kq, q.o, q.t, FALSE, rp.tc, rp.td, rp.dn)
+                      kdq == KdAfter(kq, q.o, q.t, rq.ok, rq.issued, kdp)
+                      ks1 == KsSee(SeenBy(kq, q.o, FALSE, tabC, pre.tc), kd, ks)
+                      ks2 == KsSee(SeenBy(kp, p.o, rp.executed, pre.tc, rp.tc), kd, ks1)
+                      ks3 == KsSee(SeenBy(kq, q.o, rq.executed, rp.tc, rq.tc), kdp, ks2)
+                  IN /\ tabC' = rq.tc /\ tabD' = rq.td /\ down' = rq.dn /\ kd' = kdq /\ ks' = ks3
+                     /\ cursor' = q.t
+                     /\ last' = [op |-> "deliver",
+                                 viol |-> Violations(kp, p.o, p.t, kd, kdp, ks1, down, rp.ok, rp.issued, rp.executed, rp.stale, FALSE)
+                                          \cup Violations(kq, q.o, q.t, kdp, kdq, ks2, rp.dn, rq.ok, rq.issued, rq.executed, rq.stale, FALSE)]
+                     /\ hist' = Append(hist, StepRec(kq, q.o, q.t, FALSE, kp, p.t))
     /\ UNCHANGED <<clock, sb, sd, past>>
 
 \* C15: an entry exactly for the names with a dropped incarnation; strictly below the creation time of a live
@@ -346,13 +421,13 @@ Restart ==
          /\ c = 0 \/ \E p \in past : p.t = c
          /\ cursor' = c
     /\ tabC' = [o \in Obj |-> Unk]
-    /\ tabD' = Snapshot /\ kd' = Snapshot
+    /\ tabD' = Snapshot /\ kd' = Snapshot /\ ks' = [o \in Obj |-> Unk]
     /\ last' = [op |-> "restart", viol |-> {}]
     /\ hist' = Append(hist, [op |-> "restart", seed |-> {SeedRec(o, Snapshot[o]) : o \in {x \in Obj : Snapshot[x] # Unk}}])
     /\ UNCHANGED <<clock, sb, sd, past, down>>
 
 Next == \/ \E cls \in {"create", "drop", "use"}, o \in Obj : Src(cls, o)
-        \/ Deliver \/ DeliverInflight \/ DeliverSwapped \/ Restart
+        \/ Deliver \/ DeliverInflight \/ DeliverSwapped \/ DeliverOvertake \/ Restart
 
 Spec == Init /\ [][Next]_vars
 
@@ -362,6 +437,7 @@ NoStaleApply == "NoStaleApply" \notin last.viol
 SkipNotFail  == "SkipNotFail" \notin last.viol
 NewerApplied == "NewerApplied" \notin last.viol
 NoSilentSkip == "NoSilentSkip" \notin last.viol
+NoBlindApply == "NoBlindApply" \notin last.viol
 
 \* the design's drop table is what the contract calls the recorded drop times
 TablesAgree == tabD = kd
@@ -384,7 +460,7 @@ CaseNext ==
          /\ (~cok => c = 0) /\ (~dok => d = 0)
          /\ \E via \in CaseVias(lvl) :
               hist' = <<[op |-> "case", via |-> via, level |-> lvl, t |-> t, c |-> c, d |-> d, cok |-> cok, dok |-> dok, exists |-> ex]>>
-    /\ UNCHANGED <<clock, sb, sd, past, cursor, tabC, tabD, down, kd, last>>
+    /\ UNCHANGED <<clock, sb, sd, past, cursor, tabC, tabD, down, kd, ks, last>>
 CaseSpec == Init /\ [][CaseNext]_vars
 CasePlanOut == Len(hist) = 1 => PrintT("PLAN " \o ToJson(hist))
 =============================================================================
